@@ -17,7 +17,7 @@ var radixStems = []string{"", "", "cpu,host=server", "cpu,host=server0", "cpu,ho
 
 func TestPropRadix(t *testing.T) {
 	excludeMinMax := ev.KnownOpen("C36", knownRadixMinMax)
-	rec.Check(t, 25000, 500000, func(t *rapid.T) {
+	rec.Check(t, 40000, 500000, func(t *rapid.T) {
 		// narrow alphabet: deep trees with keys that are prefixes of each other, including the
 		// bytes 0x00 and 0xff (edge order is unsigned byte order); wide alphabet: nodes with more
 		// than 16 edges (getEdge switches to binary search)
@@ -204,7 +204,7 @@ func TestPropRadix(t *testing.T) {
 		if innerDelete {
 			rec.Class("radix:inner-node-deleted")
 			rec.NonTrivial("radix|" + strings.Join(hist, " "))
-			if rec.WantSample() && len(hist) < 14 {
+			if len(hist) < 14 && wantSample("radix") {
 				rec.Sample(map[string]any{"structure": "radix.Tree", "history": strings.Join(hist, " ")})
 			}
 		} else {
